@@ -714,8 +714,10 @@ system = System.from_bodies("earth", "moon")
 l1 = system.get_libration_point(1)
 o = l1.create_orbit("halo", amplitude_z=0.2, zenith="southern")
 o.correct()
+o.correction_options = o.correction_options.merge(forward=-1)      # observable, user-set service state
 o.save("o.pkl")
 o2 = type(o).load("o.pkl")
+same("orbit.correction_options.forward", o.correction_options.forward, o2.correction_options.forward)
 same("orbit.period", o.period, o2.period); same("orbit.initial_state", o.initial_state, o2.initial_state)
 same("orbit.mu", o.mu, o2.mu); same("orbit.amplitude", o.amplitude, o2.amplitude)
 same("orbit.monodromy", o.monodromy, o2.monodromy)
